@@ -38,7 +38,7 @@ m = {
                  "kind_free_text": "extract real fn text from /repo each run -> inject contracts (units/*.vrs, contracts/*) -> Verus; Kani harness crate #[path]-including the real files for fixed-width code"}],
     "checks": checks,
     "not_applicable": [{"property_id": k, "reason": v} for k, v in sorted(NOT_APPLICABLE.items())],
-    "notes": "Exit codes of ./check: 0 held, 1 VIOLATION (line printed), 2 UNDECIDED (extraction anchor lost / unsupported construct / rlimit / unstable query) - never an alarm. Genuine defects found and repaired: see known_findings.json and DESIGN.md section 6.",
+    "notes": "Exit codes of ./check: 0 held, 1 VIOLATION (line printed), 2 UNDECIDED (extraction anchor lost / unsupported construct / rlimit / unstable query) - never an alarm. Genuine defects found and repaired: see known_findings.json, findings/ and DESIGN.md section 10.5; independently seeded breaking changes and which check catches which: seeded/ and DESIGN.md section 10.7; self-test: python3 vc/seeded_regress.py.",
 }
 json.dump(m, open(os.path.join(os.path.dirname(HERE), "MANIFEST.json"), "w"), indent=1)
 print("MANIFEST.json: %d checks, %d not applicable" % (len(checks), len(m["not_applicable"])))
